@@ -378,8 +378,14 @@ def directed_specs(regions, seed):
     det = dict(box="sym", noise="det")
     mesh = [
         dict(D=2, target="plateau", **det, options=dict(max_fun_evals=120, accelerate_mesh=True, accelerate_mesh_steps=1, search_n_try=0)),
-        dict(D=2, target="plateau", **det, options=dict(max_fun_evals=120, accelerate_mesh=True, accelerate_mesh_steps=2, tol_fun=0.0, tol_stall_iters=40, tol_mesh=1e-9)),
-        dict(D=2, target="sphere", **det, options=dict(max_fun_evals=150, accelerate_mesh=True, accelerate_mesh_steps=0, search_n_try=0, tol_fun=0.5, tol_stall_iters=40)),
+        # integer-valued target and an integer tol_fun: the historic improvement EQUALS tol_fun in some iterations (strict vs non-strict comparison)
+        # (started far from the optimum so that the incumbent still descends by single units, through incremental polls, after accelerate_mesh_steps iterations)
+        dict(D=2, target="plateau", **det, shift=[3.1, -2.9], options=dict(max_fun_evals=200, accelerate_mesh=True, accelerate_mesh_steps=1, tol_fun=1.0, tol_stall_iters=40, search_n_try=0)),
+        dict(D=2, target="plateau", **det, shift=[2.3, 2.6], options=dict(max_fun_evals=200, accelerate_mesh=True, accelerate_mesh_steps=1, tol_fun=1.0, tol_stall_iters=40, search_n_try=0)),
+        dict(D=2, target="plateau", **det, shift=[2.3, -1.6], options=dict(max_fun_evals=200, accelerate_mesh=True, accelerate_mesh_steps=2, tol_fun=1.0, tol_stall_iters=40, search_n_try=0)),
+        dict(D=3, target="plateau", **det, shift=[3.3, 2.9, -2.7], options=dict(max_fun_evals=200, accelerate_mesh=True, accelerate_mesh_steps=1, tol_fun=1.0, tol_stall_iters=40, search_n_try=0)),
+        dict(D=2, target="plateau", **det, shift=[3.6, 3.6], options=dict(max_fun_evals=200, accelerate_mesh=True, accelerate_mesh_steps=1, tol_fun=1.0, tol_stall_iters=40, search_n_try=1)),
+        dict(D=2, target="sphere", **det, options=dict(max_fun_evals=150, accelerate_mesh=True, accelerate_mesh_steps=1, search_n_try=0, tol_fun=0.5, tol_stall_iters=40)),
         dict(D=2, target="abs", **det, options=dict(max_fun_evals=150, search_n_try=0, accelerate_mesh=False)),
         dict(D=1, target="abs", **det, options=dict(max_fun_evals=120, search_size_locked=False, tol_mesh=1e-9, tol_stall_iters=60)),
         dict(D=2, target="sphere", **det, options=dict(max_fun_evals=150, search_size_locked=False, search_grid_multiplier=1, search_grid_number=2, tol_mesh=1e-8, tol_stall_iters=60, search_n_try=1)),
@@ -394,8 +400,16 @@ def directed_specs(regions, seed):
         dict(D=2, target="sphere", **det, options=dict(max_fun_evals=200, tol_mesh=0.5)),
         dict(D=2, target="abs", **det, options=dict(max_fun_evals=200, tol_mesh=0.1, search_n_try=0)),
         dict(D=2, target="plateau", **det, options=dict(max_fun_evals=150, tol_stall_iters=1)),
-        dict(D=2, target="plateau", **det, options=dict(max_fun_evals=150, tol_stall_iters=2, tol_fun=0.0, tol_mesh=1e-9)),
-        dict(D=2, target="sphere", **det, x0="atopt", options=dict(max_fun_evals=150, tol_stall_iters=2, tol_mesh=2.0 ** -4, accelerate_mesh_steps=0)),
+        dict(D=2, target="plateau", **det, shift=[3.1, -2.9], options=dict(max_fun_evals=150, tol_stall_iters=1, tol_fun=1.0, search_n_try=0)),
+        dict(D=2, target="plateau", **det, shift=[2.3, 2.6], options=dict(max_fun_evals=150, tol_stall_iters=1, tol_fun=1.0, search_n_try=0, accelerate_mesh=False)),
+        dict(D=3, target="plateau", **det, shift=[3.3, 2.9, -2.7], options=dict(max_fun_evals=200, tol_stall_iters=2, tol_fun=2.0, search_n_try=0)),
+        dict(D=2, target="plateau", **det, shift=[3.6, 3.6], options=dict(max_fun_evals=150, tol_stall_iters=2, tol_fun=2.0, search_n_try=1)),
+        dict(D=2, target="plateau", **det, shift=[2.3, -1.6], options=dict(max_fun_evals=150, tol_stall_iters=1, tol_fun=1.0, search_n_try=1)),
+        # mesh tolerance and stall hold in the SAME iteration (message precedence)
+        dict(D=2, target="sphere", **det, x0="atopt", options=dict(max_fun_evals=150, tol_stall_iters=2, tol_mesh=2.0 ** -2, accelerate_mesh=False, search_n_try=0)),
+        dict(D=2, target="sphere", **det, x0="atopt", options=dict(max_fun_evals=150, tol_stall_iters=3, tol_mesh=2.0 ** -3, accelerate_mesh=False, search_n_try=0)),
+        dict(D=1, target="abs", **det, x0="atopt", options=dict(max_fun_evals=100, tol_stall_iters=2, tol_mesh=2.0 ** -2, accelerate_mesh=False, search_n_try=0, max_iter=3)),
+        dict(D=2, target="sphere", **det, x0="atopt", options=dict(max_fun_evals=150, tol_stall_iters=2, tol_mesh=2.0 ** -4, accelerate_mesh_steps=1)),
         dict(D=2, target="sphere", **det, x0="atopt", options=dict(max_fun_evals=150, tol_stall_iters=3, tol_mesh=2.0 ** -3, max_iter=4)),
         dict(D=1, target="abs", **det, options=dict(max_fun_evals=14)),
         dict(D=2, target="sphere", **det, options=dict(max_fun_evals=9, max_iter=1, tol_mesh=2.0)),
